@@ -1014,21 +1014,21 @@ func marshalTo(read *binary.BinaryProtocol, write *binary.BinaryProtocol, from *
 // GetByInt returns a sub node at the given key from a MAP value.
 func (self Value) GetByStr(key string) (v Value) {
 	n := self.Node.GetByStr(key)
-	vd := self.Desc.Elem()
+	// an error value (the result of a failed lookup) has no descriptor
 	if n.IsError() {
 		return wrapValue(n, nil)
 	}
-	return wrapValue(n, vd)
+	return wrapValue(n, self.Desc.Elem())
 }
 
 // GetByInt returns a sub node at the given key from a MAP value.
 func (self Value) GetByInt(key int) (v Value) {
 	n := self.Node.GetByInt(key)
-	vd := self.Desc.Elem()
+	// an error value (the result of a failed lookup) has no descriptor
 	if n.IsError() {
 		return wrapValue(n, nil)
 	}
-	return wrapValue(n, vd)
+	return wrapValue(n, self.Desc.Elem())
 }
 
 // Index returns a sub node at the given index from a LIST value.
@@ -1106,6 +1106,10 @@ ret:
 
 // Field returns a sub node at the given field id from a MESSAGE value.
 func (self Value) Field(id proto.FieldNumber) (v Value) {
+	// an error value (the result of a failed lookup) has no descriptor: the error is handed on
+	if self.IsError() {
+		return self
+	}
 	rootLayer := self.IsRoot
 	msgDesc := self.Desc.Message()
 	 
@@ -1145,6 +1149,10 @@ func (self Value) getMany(pathes []PathNode, clearDirty bool, opts *Options) err
 }
 
 func (self Value) Fields(ids []PathNode, opts *Options) error {
+	// an error value (the result of a failed lookup) has no descriptor: the error is handed on
+	if self.IsError() {
+		return self
+	}
 	rootLayer := self.IsRoot
 	msgDesc := self.Desc.Message()
 
